@@ -172,10 +172,21 @@ func sumBig(l []int64) *big.Int {
 	return s
 }
 
+// seedMix decorrelates seeds: lib.NewRng(seed) is SplitMix64 started at seed*gamma,
+// so consecutive seeds give the same stream shifted by one draw.
+func seedMix(seed uint64) uint64 {
+	h := sha256.Sum256([]byte(fmt.Sprintf("verif-seed-%d", seed)))
+	var x uint64
+	for i := 0; i < 8; i++ {
+		x = x<<8 | uint64(h[i])
+	}
+	return x
+}
+
 func main() {
 	run := lib.ParseArgs()
 	elaenv.InitLog(run.Out)
-	rng := lib.NewRng(run.Seed)
+	rng := lib.NewRng(seedMix(run.Seed))
 	functions.GetTransactionByTxType = transaction.GetTransaction
 	functions.GetTransactionByBytes = transaction.GetTransactionByBytes
 	functions.CreateTransaction = transaction.CreateTransaction
@@ -737,6 +748,7 @@ func main() {
 			amt = boundary
 		}
 		exR, exU := b(0), b(0)
+		stakeWrapped := false
 		var ops, obs, log []string
 		accepted := 0
 		var cast []int64
@@ -821,8 +833,11 @@ func main() {
 				obs = append(obs, fmt.Sprintf("(%s,%s)", lib.CoqZi(R), lib.CoqZi(U)))
 				// oracle: used <= rights, nothing negative, equal to the exact replay
 				if b(R).Cmp(exR) != 0 || b(U).Cmp(exU) != 0 || R < 0 || U < 0 || U > R {
-					if big62 && (b(R).Cmp(exR) != 0 || R < 0) && U >= 0 && b(U).Cmp(exU) == 0 {
-						beyond["sequence: vote rights wrapped by stakes >= 2^62"]++
+					if strings.HasPrefix(ops[len(ops)-1], "VStake") && b(R).Cmp(exR) != 0 {
+						stakeWrapped = true // rights wrapped by stakes summing to >= 2^63: not reachable with real coins
+					}
+					if stakeWrapped {
+						beyond["sequence: state after the vote rights wrapped by stakes >= 2^62"]++
 					} else {
 						st.Fail("VoteRights:overdrawn-or-diverges", "DPoS v2 votes in use exceed the vote rights, a balance is negative, or the int64 bookkeeping differs from the exact replay",
 							map[string]interface{}{"history": log, "rights": R, "used_v2": U, "exact": []string{exR.String(), exU.String()}})
